@@ -249,7 +249,7 @@ static char *struct_of (MIR_context_t ctx, size_t *len) {
    labels of lref items - is an insn of the insn list of a function of that module (operands: of the function holding
    the insn; the two labels of an lref: of one function), and no two label insns of a function carry the same number.
    The text and the bytes name labels by number; loading, linking, interpreting and generating code use the object. */
-static void label_identity (FILE *out, const char *tag, MIR_context_t ctx) {
+static int label_identity (FILE *out, const char *tag, MIR_context_t ctx) {
   char msg[300];
   msg[0] = 0;
   for (MIR_module_t m = DLIST_HEAD (MIR_module_t, *MIR_get_module_list (ctx)); m != NULL && !msg[0]; m = DLIST_NEXT (MIR_module_t, m)) {
@@ -301,7 +301,8 @@ static void label_identity (FILE *out, const char *tag, MIR_context_t ctx) {
     free (own);
   }
   for (char *q = msg; *q; q++) if (*q == '|' || *q == '\n') *q = '/';
-  fprintf (out, "|LI%s=%s", tag, msg[0] ? msg : "ok");
+  if (out != NULL) fprintf (out, "|LI%s=%s", tag, msg[0] ? msg : "ok");
+  return msg[0] == 0;
 }
 
 /* ---------------------------------------------------------------- building from a description */
@@ -476,11 +477,13 @@ static void buf_add (buf_t *b, const char *p, size_t n) {
   for (size_t i = 0; i < n; i++) buf_push (b, (uint8_t) p[i]);
 }
 
+static int seg_li_bad; /* a separately built context (before it was written) has a label reference without its label insn */
 static void seg_flush (MIR_context_t ctx) {
   if (nsegs >= MAXSEG) { fprintf (stderr, "harness: too many segments\n"); exit (3); }
   seg_stage = "segment-output";
   {
     size_t n;
+    if (!label_identity (NULL, "", ctx)) seg_li_bad = 1;
     char *t = text_of (ctx, &n);
     buf_add (&seg_text, t, n);
     free (t);
@@ -742,6 +745,7 @@ static void run_case (FILE *out, char *desc) {
   a = MIR_init ();
   MIR_set_error_func (a, err_func);
   nsegs = 0;
+  seg_li_bad = 0;
   seg_stage = NULL;
   if (setjmp (err_jmp)) {
     if (seg_stage != NULL)
@@ -763,6 +767,7 @@ static void run_case (FILE *out, char *desc) {
     s0 = struct_of (a, &ns0);
     emit_text (out, "S0", s0, ns0, NULL, 0);
     label_identity (out, "0", a);
+    if (nsegs > 0 && seg_li_bad) fprintf (out, "|LIS=described");
     if (nsegs > 0) {
       /* the context under test was put together by the binary reader from separately written modules */
       emit_text (out, "TS", (char *) seg_text.p, seg_text.n, t0, n0);
